@@ -41,10 +41,13 @@ def check(case, ctx):
     ctx.label("scale:" + str(case.get("scale", "unit")))
     W0 = W.copy()
     np.fill_diagonal(W0, 0)
+    dt = case.get("dtype", "float64")
+    if dt != "float64":
+        ctx.label("dtype:" + dt)
     if null:
-        o = ctx.call(fn, gen.layout(W.copy(), case.get("order")), bin_swaps=case["itr"], wei_freq=case["wei_freq"], seed=case["seed"], timeout=20)
+        o = ctx.call(fn, gen.layout(W.astype(dt), case.get("order")), bin_swaps=case["itr"], wei_freq=case["wei_freq"], seed=case["seed"], timeout=20)
     else:
-        o = ctx.call(fn, gen.layout(W.copy(), case.get("order")), case["itr"], seed=case["seed"], timeout=20)
+        o = ctx.call(fn, gen.layout(W.astype(dt), case.get("order")), case["itr"], seed=case["seed"], timeout=20)
     if o.status == "timeout":
         return fails
     if o.status == "reject":
@@ -160,8 +163,35 @@ def cases(draw, name, nmax):
                 W[i, j] *= 2.0 ** -30
                 if und:
                     W[j, i] = W[i, j]
+    dtype = "float64"
+    if null and scale == "unit" and draw(st.integers(0, 3)) == 0:
+        # nearly regular signed strengths: circulant support, signs by offset, all magnitudes within 1e-8 of each other (1024 + k 2^-20:
+        # every strength is an exact sum). The strength sequences then vary in their 9th digit only.
+        n = len(W)
+        W = np.zeros((n, n))
+        kk = draw(st.lists(st.integers(0, 7), min_size=n * 4, max_size=n * 4))
+        it = iter(kk)
+        for off_, sg in ((1, 1.0), (2, -1.0)) if n >= 5 else ((1, 1.0),):
+            for i in range(n):
+                j = (i + off_) % n
+                v = sg * (1024.0 + next(it) * 2.0 ** -20)
+                W[i, j] = v
+                if und:
+                    W[j, i] = v
+                else:
+                    W[j, i] = sg * (1024.0 + next(it) * 2.0 ** -20)
+        if not und and np.array_equal(W, W.T):
+            W[0, 1] = 1024.0 + 2.0 ** -18
+        scale = "offset-regular"
+    elif (not null) and scale == "unit" and draw(st.integers(0, 2)) == 0:
+        # integer weights near the end of a narrow integer type's range (products of two weights do not fit)
+        dtype = draw(st.sampled_from(["int8", "int16", "int32", "int64"]))
+        top = {"int8": 120, "int16": 30000, "int32": 2 ** 31 - 1000, "int64": 2 ** 62}[dtype]
+        mag = np.round(np.abs(W) * 8)           # 1..8
+        W = np.sign(W) * (top - mag * (top // 16))
+        scale = "integer-" + dtype
     case = {"fn": name, "W": W, "itr": draw(st.sampled_from([2, 1, 5, 0])), "seed": draw(gen.seeds()),
-            "order": draw(st.sampled_from(gen.ORDERS)), "scale": scale}
+            "order": draw(st.sampled_from(gen.ORDERS)), "scale": scale, "dtype": dtype}
     if null:
         case["wei_freq"] = draw(st.sampled_from([0.5, 0, 1, 0.25, 0.1]))
     return case
